@@ -300,10 +300,20 @@ impl Monitor for C13 {
         "C13"
     }
     fn plan(&self, cfg: &Cfg) -> u64 {
-        (3 * SHAPES.len()) as u64 * cfg.tier.pick(4, 32)
+        (3 * SHAPES.len()) as u64 * cfg.tier.pick(4, 32) + 2
     }
     fn trial(&self, cfg: &Cfg, idx: u64, out: &mut TrialOut) {
         let mut rng = Rng::for_trial(cfg.seed, "C13", idx);
+        let main = (3 * SHAPES.len()) as u64 * cfg.tier.pick(4, 32);
+        if idx >= main {
+            // "millions of values": two streams beyond 2^24 values (where a count kept in f32 stalls)
+            let vi = if idx == main { 0 } else { 1 };
+            let shape = if idx == main { Shape::Walk } else { Shape::PeaksAndTroughs };
+            let seed = rng.next();
+            out.key(mix(hash_str(&format!("verylong{}", vi)), seed));
+            run_f64(vi, shape, seed, (1u64 << 24) + (1u64 << 18), out);
+            return;
+        }
         let vi = (idx % 3) as usize;
         let shape = SHAPES[((idx / 3) % SHAPES.len() as u64) as usize];
         let rep = idx / (3 * SHAPES.len() as u64);
